@@ -312,3 +312,233 @@ Proof.
   destruct (table_new dbg cp (fde_in_of (sc_be c) aa fd) cx) as [t|e| |]; try reflexivity.
   apply find_row_collect_g.
 Qed.
+
+(* ------------------------------------------------------------------ C. agreement with CfiRun / CfiUwi *)
+Section Agree.
+Variable dbg : bool.
+Variable d : dparams.
+Variable P : N -> list byte -> res (insn * list byte).
+Hypothesis HP : forall off bs, P off bs = parse_insn dbg (d_be d) (d_asize d) (d_aarch64 d) off bs.
+
+Lemma iter_next_g_old it : iter_next_g P it = CfiRun.iter_next dbg d it.
+Proof. unfold iter_next_g, CfiRun.iter_next. rewrite HP. reflexivity. Qed.
+
+Lemma next_row_loop_g_old : forall fuel c t it, next_row_loop_g P fuel c t it = next_row_loop fuel dbg c d t it.
+Proof.
+  induction fuel as [|f IH]; intros c t it; [reflexivity|]. cbn [next_row_loop_g next_row_loop].
+  rewrite iter_next_g_old. destruct (CfiRun.iter_next dbg d it) as [[[i|]|e| |] it']; try reflexivity.
+  destruct (evaluate c t i) as [[[|] t1]|e| |]; try reflexivity. apply IH.
+Qed.
+
+Lemma next_row_g_old c t it : next_row_g P c t it = next_row dbg c d t it.
+Proof.
+  unfold next_row_g, next_row. destruct (c_stack (t_ctx t)); [reflexivity|].
+  destruct (with_top _ _); try reflexivity. apply next_row_loop_g_old.
+Qed.
+
+Lemma collect_g_old : forall fuel c t it, collect_g P fuel c t it = collect fuel None dbg c d t it.
+Proof.
+  induction fuel as [|f IH]; intros c t it; [reflexivity|]. cbn [collect_g collect].
+  rewrite next_row_g_old. destruct (next_row dbg c d t it) as [[[r|]|e| |] [t' it']]; try reflexivity.
+  rewrite IH. reflexivity.
+Qed.
+
+Lemma find_row_g_old : forall fuel c a t it, find_row_g P fuel c a t it = find_row fuel dbg c d a t it.
+Proof.
+  induction fuel as [|f IH]; intros c a t it; [reflexivity|]. cbn [find_row_g find_row].
+  rewrite next_row_g_old. destruct (next_row dbg c d t it) as [[[r|]|e| |] [t' it']]; try reflexivity.
+  destruct (row_contains r a); [reflexivity|]. apply IH.
+Qed.
+End Agree.
+
+Lemma parse_insn_sl_plain dbg c aa fd : fde_addr_enc fd = None ->
+  forall off bs, parse_insn_sl dbg c aa fd off bs = parse_insn dbg (sc_be c) (ci_asz (fd_cie fd)) aa off bs.
+Proof. intros H off bs. unfold parse_insn_sl. rewrite H. reflexivity. Qed.
+
+(* without an FDE address encoding ('R' absent) the extension IS C06's evaluator on the adapter's record:
+   every byte string, rows, outcome and context left behind *)
+Theorem fde_rows_sl_plain dbg cp c aa fd cx : fde_addr_enc fd = None ->
+  fde_rows_sl dbg cp c aa fd cx = fde_rows dbg cp (fde_in_of (sc_be c) aa fd) cx.
+Proof.
+  intros H. unfold fde_rows_sl, fde_rows, fde_rows_lim. cbv zeta.
+  destruct (negb _); [reflexivity|]. destruct (table_new _ _ _ _); try reflexivity.
+  apply (collect_g_old dbg (f_dparams (fde_in_of (sc_be c) aa fd))). apply parse_insn_sl_plain. exact H.
+Qed.
+
+Theorem fde_uwi_sl_plain dbg cp c aa fd cx a : fde_addr_enc fd = None ->
+  fde_uwi_sl dbg cp c aa fd cx a = CfiRun.unwind_info_for_address dbg cp (fde_in_of (sc_be c) aa fd) cx a.
+Proof.
+  intros H. unfold fde_uwi_sl, CfiRun.unwind_info_for_address. cbv zeta.
+  destruct (negb _); [reflexivity|]. destruct (table_new _ _ _ _); try reflexivity.
+  apply (find_row_g_old dbg (f_dparams (fde_in_of (sc_be c) aa fd))). apply parse_insn_sl_plain. exact H.
+Qed.
+
+(* with an encoding: as long as no instruction of the FDE starts with opcode 0x01 (DW_CFA_set_loc) *)
+Fixpoint no_op1 (fuel : nat) (P : N -> list byte -> res (insn * list byte)) (it : cfi_iter) : bool :=
+  match fuel with
+  | O => true
+  | S f =>
+      match it_bytes it with
+      | [] => true
+      | b :: _ =>
+          negb (b2n b =? 1) &&
+          match iter_next_g P it with
+          | (Ok (Some _), it') => no_op1 f P it'
+          | _ => true
+          end
+      end
+  end.
+
+Definition setloc_free (dbg : bool) (c : scfg) (aa : bool) (fd : CfiRd.fde) : bool :=
+  no_op1 (S (length (win (fd_instr fd)))) (parse_insn_sl dbg c aa fd)
+         {| it_off := CfiRd.off (fd_instr fd); it_bytes := win (fd_instr fd) |}.
+
+Lemma no_op1_decode dbg c aa fd : forall fuel it,
+  no_op1 fuel (parse_insn_sl dbg c aa fd) it = true ->
+  decode_fuel_g (parse_insn_sl dbg c aa fd) fuel it =
+  decode_fuel fuel dbg (f_dparams (fde_in_of (sc_be c) aa fd)) it.
+Proof.
+  induction fuel as [|f IH]; intros it H; [reflexivity|]. cbn [no_op1 decode_fuel_g decode_fuel] in *.
+  assert (E : iter_next_g (parse_insn_sl dbg c aa fd) it = CfiRun.iter_next dbg (f_dparams (fde_in_of (sc_be c) aa fd)) it).
+  { unfold iter_next_g, CfiRun.iter_next. destruct (it_bytes it) as [|b r] eqn:Eb; [reflexivity|].
+    apply andb_true_iff in H. destruct H as [Hb _].
+    unfold parse_insn_sl. destruct (fde_addr_enc fd); [|reflexivity].
+    destruct (b2n b =? 1); [discriminate|reflexivity]. }
+  rewrite <- E. destruct (it_bytes it) as [|b r] eqn:Eb.
+  - unfold iter_next_g. rewrite Eb. reflexivity.
+  - apply andb_true_iff in H. destruct H as [_ H].
+    destruct (iter_next_g (parse_insn_sl dbg c aa fd) it) as [[[i|]|e| |] it']; try reflexivity.
+    f_equal. apply IH. exact H.
+Qed.
+
+Theorem setloc_free_items dbg c aa fd : setloc_free dbg c aa fd = true ->
+  fde_items_sl dbg c aa fd =
+  decode dbg (f_dparams (fde_in_of (sc_be c) aa fd)) (CfiRd.off (fd_instr fd)) (win (fd_instr fd)).
+Proof. intros H. unfold fde_items_sl, decode_g, decode. apply no_op1_decode. exact H. Qed.
+
+(* ------------------------------------------------------------------ D. the composition, without section_setloc_plain *)
+Lemma fde_uwi_sl_spec dbg cp c aa fd cx a :
+  valid_asize (ci_asz (fd_cie fd)) = true -> cap_full (max_stack cp) 0 = false ->
+  uwi_result_spec a (fst (spec_of_sl dbg cp c aa fd)) (snd (spec_of_sl dbg cp c aa fd))
+                  (fst (fde_uwi_sl dbg cp c aa fd cx a)).
+Proof.
+  intros Hv Hc. rewrite fde_uwi_sl_pick.
+  destruct (model_eq_spec_sl dbg cp c aa fd cx Hv Hc) as (H1 & H2). rewrite H2.
+  apply pick_row_equiv. exact H1.
+Qed.
+
+(* every byte string: the lookup, then the first row of the FDE's table (decoded with ITS encoding) *)
+Lemma uwi_sl_compose dbg cp c aa sec cx a :
+  fst (unwind_info_for_address_sl dbg cp c aa sec cx a) =
+  match fde_for_address dbg c sec a with
+  | Ok fd => pick a (fst (fst (fde_rows_sl dbg cp c aa fd cx))) (snd (fst (fde_rows_sl dbg cp c aa fd cx)))
+  | Err e => Err e
+  | Panic => Panic
+  | OutOfFuel => OutOfFuel
+  end.
+Proof.
+  unfold unwind_info_for_address_sl.
+  destruct (fde_for_address dbg c sec a) as [fd|e| |]; try reflexivity. apply fde_uwi_sl_pick.
+Qed.
+
+(* first FDE in section order that covers a; its table, through encoded set_loc operands *)
+Lemma uwi_sl_spec_lem dbg cp c aa sec cx a items fds :
+  asz_ok (sc_asz c) -> cap_full (max_stack cp) 0 = false ->
+  entries_all dbg c sec = Ok (items, None) ->
+  parsed_fdes dbg c sec items = Some fds ->
+  match find (fun f => covers f a) fds with
+  | None => fst (unwind_info_for_address_sl dbg cp c aa sec cx a) = Err ENoUnwindInfoForAddress
+  | Some fd =>
+      uwi_result_spec a (fst (spec_of_sl dbg cp c aa fd)) (snd (spec_of_sl dbg cp c aa fd))
+                      (fst (unwind_info_for_address_sl dbg cp c aa sec cx a))
+  end.
+Proof.
+  intros Hc Hcap He Hp.
+  unfold unwind_info_for_address_sl. rewrite (linear_lookup_lem dbg c sec a items fds Hc He Hp).
+  destruct (find (fun f => covers f a) fds) as [fd|] eqn:Ef; [|reflexivity].
+  apply fde_uwi_sl_spec; [|exact Hcap].
+  apply asz_ok_valid.
+  pose proof (parsed_fdes_asz dbg c sec items fds Hp Hc) as Hall. rewrite Forall_forall in Hall.
+  apply Hall. apply find_some in Ef. tauto.
+Qed.
+
+(* the old composition is the new one wherever it was claimed: sections whose FDEs carry no 'R' encoding *)
+Lemma uwi_sl_agrees_plain dbg cp c aa sec cx a :
+  (forall fd, fde_for_address dbg c sec a = Ok fd -> fde_addr_enc fd = None) ->
+  unwind_info_for_address_sl dbg cp c aa sec cx a = unwind_info_for_address dbg cp c aa sec cx a.
+Proof.
+  intros H. unfold unwind_info_for_address_sl, unwind_info_for_address.
+  destruct (fde_for_address dbg c sec a) as [fd|e| |] eqn:E; try reflexivity.
+  apply fde_uwi_sl_plain. apply H. reflexivity.
+Qed.
+
+(* header path and totality *)
+Lemma hdr_uwi_sl_designated_lem dbg cp hb h c aa sec cx a :
+  asz_ok (sc_asz c) ->
+  fst (hdr_unwind_info_for_address_sl dbg cp hb h c aa sec cx a) =
+  (let* p := hdr_lookup dbg hb h a in
+   let* o := pointer_to_offset dbg h p in
+   let* fd := fde_from_offset dbg c sec o in
+   if covers fd a then
+     pick a (fst (fst (fde_rows_sl dbg cp c aa fd cx))) (snd (fst (fde_rows_sl dbg cp c aa fd cx)))
+   else Err ENoUnwindInfoForAddress).
+Proof.
+  intros Hc. unfold hdr_unwind_info_for_address_sl, hdr_fde_for_address.
+  destruct (hdr_lookup dbg hb h a) as [p|e| |]; try reflexivity. cbn [bind].
+  destruct (pointer_to_offset dbg h p) as [o|e| |]; try reflexivity. cbn [bind].
+  destruct (fde_from_offset dbg c sec o) as [fd|e| |] eqn:Efd; try reflexivity. cbn [bind].
+  rewrite fde_contains_covers.
+  - cbn [bind]. destruct (covers fd a); [apply fde_uwi_sl_pick|reflexivity].
+  - unfold fde_from_offset in Efd. apply bind_ok in Efd as (p0 & _ & Efd). eapply fde_parse_asz; eassumption.
+Qed.
+
+Lemma uwi_sl_paths_agree_lem dbg cp hb h c aa sec cx a items fds size o0 rows locs extra tfds e :
+  asz_ok (sc_asz c) ->
+  entries_all dbg c sec = Ok (items, None) ->
+  parsed_fdes dbg c sec items = Some fds ->
+  wf_hdr dbg hb h fds size o0 rows locs extra tfds e ->
+  hdr_unwind_info_for_address_sl dbg cp hb h c aa sec cx a = unwind_info_for_address_sl dbg cp c aa sec cx a.
+Proof.
+  intros. unfold hdr_unwind_info_for_address_sl, unwind_info_for_address_sl.
+  erewrite hdr_lookup_agrees_lem by eassumption. reflexivity.
+Qed.
+
+(* ------------------------------------------------------------------ the set_loc operand inside the table *)
+(* wherever the FDE's iterator stands on opcode 0x01 under an address encoding, the next item is the operand
+   theorem's pointer (CfiUwi.parse_set_loc at the offset after the opcode), and decoding goes on after it *)
+Lemma dec_g_set_loc dbg c aa fd enc off r :
+  fde_addr_enc fd = Some enc -> asz_ok (ci_asz (fd_cie fd)) ->
+  dec_g (parse_insn_sl dbg c aa fd) {| it_off := off; it_bytes := n2b 1 :: r |} =
+  match parse_set_loc dbg c fd (mkrd (off + 1) r) with
+  | Ok (a, r1) => It (ISetLoc a) :: dec_g (parse_insn_sl dbg c aa fd)
+                                      {| it_off := off + consumed (n2b 1 :: r) (win r1); it_bytes := win r1 |}
+  | Err e => [Bad e]
+  | Panic => [BadPanic]
+  | OutOfFuel => [BadFuel]
+  end.
+Proof.
+  intros He Hasz. rewrite dec_unfold_g by (intros; apply parse_insn_sl_tame; exact Hasz).
+  unfold iter_next_g. cbn [it_bytes it_off]. unfold parse_insn_sl. rewrite He.
+  change (b2n (n2b 1) =? 1) with true. cbv iota.
+  destruct (parse_set_loc dbg c fd (mkrd (off + 1) r)) as [[a r1]|e| |]; reflexivity.
+Qed.
+
+(* with the operand theorem: a set_loc whose operand encodes v under enc yields the LSB pointer a = ptr_spec(...)
+   (bases of the section, the operand's own offset, no function base) and the rest is decoded behind it; an
+   indirect encoding ends the stream with UnsupportedIndirectPointer *)
+Lemma set_loc_in_table_lem dbg c aa fd enc off v rest ind a :
+  fde_addr_enc fd = Some enc ->
+  enc < 256 -> asz_ok (ci_asz (fd_cie fd)) -> CfiSpec.valid_spec enc = true -> enc <> 255 ->
+  CfiSpec.value_fits (CfiSpec.fmt_of enc) (ci_asz (fd_cie fd)) v = true ->
+  CfiSpec.ptr_spec enc (ci_asz (fd_cie fd)) (pb_of (mkpp (sc_bases c) None (ci_asz (fd_cie fd)))) (off + 1) v = Some (ind, a) ->
+  let ev := CfiSpec.enc_value (CfiSpec.fmt_of enc) (ci_asz (fd_cie fd)) (sc_be c) v in
+  dec_g (parse_insn_sl dbg c aa fd) {| it_off := off; it_bytes := n2b 1 :: ev ++ rest |} =
+  if ind then [Bad EUnsupportedIndirectPointer]
+  else It (ISetLoc a) :: dec_g (parse_insn_sl dbg c aa fd) {| it_off := off + 1 + nlen ev; it_bytes := rest |}.
+Proof.
+  intros He H256 Hasz Hv Hn Hfit Hps ev.
+  rewrite (dec_g_set_loc dbg c aa fd enc off (ev ++ rest) He Hasz).
+  unfold ev. rewrite (set_loc_roundtrip_lem dbg c fd enc (off + 1) v rest ind a He H256 Hasz Hv Hn Hfit Hps).
+  destruct ind; [reflexivity|]. cbn [win]. do 3 f_equal.
+  unfold consumed, nlen. cbn [length]. rewrite app_length. lia.
+Qed.
